@@ -3,5 +3,5 @@ From Coq Require Extraction.
 From Coq Require Import ExtrOcamlBasic.
 From Coq Require Import List ZArith NArith.
 From Muduo Require Import Base_Bytes Gen_C12 C12_Model.
-Extraction "model.ml" C12_Model.step C12_Model.init C12_Model.run
+Extraction "model.ml" C12_Model.step C12_Model.init C12_Model.run C12_Model.contract C12_Model.text_contract
   Base_Bytes.xbyte_of_N Base_Bytes.xN_of_byte Base_Bytes.xanchor.
